@@ -388,3 +388,92 @@ macro_rules! k4 {
 k4!(k4_layout_unit, ());
 k4!(k4_layout_u64, u64);
 k4!(k4_layout_big, [u64; 8]);
+
+// ---------------------------------------------------------------- K3: internal.rs list functions on the UNREWRITTEN text
+// Cross-check of exec rewrite X1 (the `for (i, x) in ..iter().enumerate()` loops are desugared for Verus):
+// the same post-condition as the Verus contract, on the original function, for wait lists of length <= 3.
+// BOUNDED (list length <= 3, unwind 5): reported as a bounded stand-in, never counted as proved.
+mod k3 {
+    use crate::internal::ChannelInternal;
+    use crate::pointer::KanalPtr;
+    use crate::signal::{Signal, SignalTerminator};
+    extern crate alloc;
+    use alloc::collections::VecDeque;
+
+    fn mk(n: usize, recv_blocking: bool, sigs: &[Signal<u8>; 3]) -> ChannelInternal<u8> {
+        let mut wl: VecDeque<SignalTerminator<u8>> = VecDeque::with_capacity(4);
+        let mut i = 0;
+        while i < n {
+            wl.push_back(sigs[i].get_terminator());
+            i += 1;
+        }
+        ChannelInternal { queue: VecDeque::new(), recv_blocking, wait_list: wl, capacity: 0, recv_count: 1, send_count: 1 }
+    }
+    fn sigs() -> [Signal<u8>; 3] {
+        [Signal::new_sync(KanalPtr::default()), Signal::new_sync(KanalPtr::default()), Signal::new_sync(KanalPtr::default())]
+    }
+
+    #[kani::proof]
+    #[kani::unwind(5)]
+    fn k3_cancel_send_signal() {
+        let s = sigs();
+        let other: Signal<u8> = Signal::new_sync(KanalPtr::default());
+        let n: usize = kani::any();
+        kani::assume(n <= 3);
+        let rb: bool = kani::any();
+        let mut c = mk(n, rb, &s);
+        let k: usize = kani::any();
+        kani::assume(k <= 3);
+        let target: &Signal<u8> = if k < 3 { &s[k] } else { &other };
+        let r = c.cancel_send_signal(target);
+        let present = !rb && k < n;
+        assert!(r == present);
+        if r {
+            assert!(c.wait_list.len() == n - 1);
+            // the others keep their order
+            let mut j = 0;
+            let mut idx = 0;
+            while j < n {
+                if j != k {
+                    assert!(c.wait_list[idx] == s[j]);
+                    idx += 1;
+                }
+                j += 1;
+            }
+        } else {
+            assert!(c.wait_list.len() == n);
+        }
+        assert!(c.recv_blocking == rb);
+    }
+
+    #[kani::proof]
+    #[kani::unwind(5)]
+    fn k3_cancel_recv_signal() {
+        let s = sigs();
+        let other: Signal<u8> = Signal::new_sync(KanalPtr::default());
+        let n: usize = kani::any();
+        kani::assume(n <= 3);
+        let rb: bool = kani::any();
+        let mut c = mk(n, rb, &s);
+        let k: usize = kani::any();
+        kani::assume(k <= 3);
+        let target: &Signal<u8> = if k < 3 { &s[k] } else { &other };
+        let r = c.cancel_recv_signal(target);
+        let present = rb && k < n;
+        assert!(r == present);
+        if r {
+            assert!(c.wait_list.len() == n - 1);
+            let mut j = 0;
+            let mut idx = 0;
+            while j < n {
+                if j != k {
+                    assert!(c.wait_list[idx] == s[j]);
+                    idx += 1;
+                }
+                j += 1;
+            }
+        } else {
+            assert!(c.wait_list.len() == n);
+        }
+    }
+}
